@@ -59,10 +59,19 @@ def c07_prog(name, rng, force=None):
         if kind == "named":
             return " { " + ", ".join("%s%s%s: %s" % (fa[i], pub, "abcde"[i], t) for i, t in enumerate(ts)) + " }"
         return "(" + ", ".join(fa[i] + pub + t for i, t in enumerate(ts)) + ")"
-    head = "#[derive_ex::derive_ex(%s)]\n#[derive(Debug)]\n" % ", ".join(derive)
+    # explicit bound(..) without `..` on the item / on a variant: only the where-clause is concerned (no type parameter here), clone and
+    # clone_from must behave as without it
+    dl = list(derive)
+    bmode = rng.choice([None, None, "entry", "shared", "variant"])
+    if bmode == "entry":
+        dl = [("Clone(bound())" if t == "Clone" else t) for t in dl]
+    elif bmode == "shared":
+        dl = dl + ["bound()"]
+    head = "#[derive_ex::derive_ex(%s)]\n#[derive(Debug)]\n" % ", ".join(dl)
+    vattr = lambda: (rng.choice(["#[derive_ex(Clone(bound()))] ", "#[derive_ex(Clone, bound())] "]) if (bmode == "variant" and rng.random() < 0.7) else "")
     if is_enum:
         extra = ", #[doc(hidden)] Zl(core::marker::PhantomData<&'a ()>)" if with_lt else ""
-        body = ", ".join(v[0] + fields_decl(v[1], v[2], "") for v in vs)
+        body = ", ".join(vattr() + v[0] + fields_decl(v[1], v[2], "") for v in vs)
         td = head + "pub enum X%s { %s%s }\n" % (L, body, extra)
         real = vs
     else:
@@ -205,7 +214,7 @@ pub fn fun(k: u8, a: L) -> L { L { v: a.v.wrapping_mul(5) ^ k.wrapping_mul(91), 
     return "\n".join(out) + "\n"
 
 
-def c08_prog(name, kind, nfields, ops, generic=False, bounds=None):
+def c08_prog(name, kind, nfields, ops, generic=False, bounds=None, repr=None):
     """struct with nfields fields of type L deriving the given operator traits; one harness per (trait, form)"""
     fty = "T" if generic else "L"
     g = "<T>" if generic else ""
@@ -227,7 +236,8 @@ def c08_prog(name, kind, nfields, ops, generic=False, bounds=None):
         decl = "pub struct X%s { %s }" % (g, ", ".join("%spub %s: %s" % (fattr(i), n, fty) for i, n in enumerate(names)))
     else:
         decl = "pub struct X%s(%s);" % (g, ", ".join(fattr(i) + "pub " + fty for i, _ in enumerate(names)))
-    td = "#[derive_ex::derive_ex(%s)]\n#[derive(Clone, Copy, Debug, PartialEq)]\n%s\n" % (lst, decl)
+    # repr: a representation attribute of the user (`packed` with alignment-1 fields is accepted by the pinned tree); it must not change what the operators do
+    td = "#[derive_ex::derive_ex(%s)]\n#[derive(Clone, Copy, Debug, PartialEq)]\n%s%s\n" % (lst, ("#[repr(%s)]\n" % repr) if repr else "", decl)
     acc = (lambda v, i: "%s.%s" % (v, names[i])) if kind == "named" else (lambda v, i: "%s.%d" % (v, i))
     if kind == "unit":
         mk = "impl Mk for X { fn mk<S: Src>(s: &mut S) -> Self { X } }\n"
@@ -272,7 +282,7 @@ def c08_prog(name, kind, nfields, ops, generic=False, bounds=None):
                 harnesses.append(h)
     text = td + "\n" + mk + "\n".join(wrappers) + "\n#[cfg(kani)]\npub mod proofs {\n    use super::*;\n%s\n}\n" % "\n".join(proofs)
     text += "pub fn replay(h: &str, b: &[u8]) -> (bool, String) {\n    let mut s = VecSrc { v: b.to_vec(), i: 0 };\n    match h {\n%s\n        _ => (true, String::from(\"unknown harness\")),\n    }\n}\n" % "\n".join(replays)
-    return Prog(name, text, harnesses, {"describe": "%s struct, %d fields%s%s, ops=%s" % (kind, nfields, " generic" if generic else "", (" bound()@" + bounds) if bounds else "", "+".join(ops))})
+    return Prog(name, text, harnesses, {"describe": "%s struct, %d fields%s%s, ops=%s" % (kind, nfields, " generic" if generic else "", ((" bound()@" + bounds) if bounds else "") + ((" repr(%s)" % repr) if repr else ""), "+".join(ops))})
 
 
 # ------------------------------------------------------------------------------------------------ C18
@@ -383,7 +393,7 @@ pub fn uf(k: u8, l: u8, r: u8) -> u8 { l.wrapping_mul(3).wrapping_add(r ^ k.wrap
 '''
 
 
-def c09_prog(name, op, base_l_ref, base_r_ref, rhs_other, req, generic=False, base_assign=False, self_in_where=None, bound_in_where=False):
+def c09_prog(name, op, base_l_ref, base_r_ref, rhs_other, req, generic=False, base_assign=False, self_in_where=None, bound_in_where=False, rhs_spelled_self=False):
     """req: subset of {'bin','assign'}; base_assign: the user impl is `impl OpAssign<R> for A`, req must be {'bin'}"""
     k = BINOPS.index(op)
     f = FN[op]
@@ -402,6 +412,13 @@ def c09_prog(name, op, base_l_ref, base_r_ref, rhs_other, req, generic=False, ba
     tfield = ", t: self.t" if generic else ""
     lty = ("&" if base_l_ref else "") + LT
     rty = ("&" if base_r_ref else "") + RT
+    # the Rhs written with `Self` where that names the same type (`impl Sub<Self> for &A` is `impl Sub<&A> for &A`)
+    hdr_rty = rty
+    if rhs_spelled_self and not rhs_other and not base_assign:
+        if base_l_ref == base_r_ref:
+            hdr_rty = "Self"
+        elif base_r_ref and not base_l_ref:
+            hdr_rty = "&Self"
     lst = []
     if "bin" in req:
         lst.append(op)
@@ -412,7 +429,7 @@ def c09_prog(name, op, base_l_ref, base_r_ref, rhs_other, req, generic=False, ba
                 % (op, ig, op, rty, LT, wh, f, rty, k))
     else:
         user = ("#[derive_ex::derive_ex(%s)]\nimpl%s core::ops::%s<%s> for %s%s {\n    type Output = %s;\n    fn %s(self, rhs: %s) -> %s { %s { v: uf(%d, self.v, rhs.v), c: (self.c << 4) | rhs.c%s } }\n}\n"
-                % (", ".join(lst), ig, op, rty, lty, wh, "Self" if (generic and not base_l_ref) else LT, f, rty, LT, "G" if generic else "A", k, tfield))
+                % (", ".join(lst), ig, op, hdr_rty, lty, wh, "Self" if (generic and not base_l_ref) else LT, f, rty, LT, "G" if generic else "A", k, tfield))
     wrappers, proofs, replays, harnesses = [], [], [], []
     def add(h, call, exp_v, exp_c):
         post = "r.v == %s && r.c == %s" % (exp_v, exp_c)
@@ -450,7 +467,7 @@ def c09_prog(name, op, base_l_ref, base_r_ref, rhs_other, req, generic=False, ba
                 add("assign_%s" % ("r" if ar else "v"), "{ let mut a = x.dup(); core::ops::%sAssign::%s_assign(&mut a, %s); a }" % (op, f, ra), ev, "((%s << 4) | %s)" % (lc, rc))
     text = user + "\n" + C09_TYPES + "pub trait SameTy2<B: ?Sized> {} impl<A_: ?Sized> SameTy2<A_> for A_ {}\n" + "\n".join(wrappers) + "\n#[cfg(kani)]\npub mod proofs {\n    use super::*;\n%s\n}\n" % "\n".join(proofs)
     text += "pub fn replay(h: &str, b: &[u8]) -> (bool, String) {\n    let mut s = VecSrc { v: b.to_vec(), i: 0 };\n    match h {\n%s\n        _ => (true, String::from(\"unknown harness\")),\n    }\n}\n" % "\n".join(replays)
-    desc = "impl %s%s<%s> for %s%s  derive_ex(%s)" % (op, "Assign" if base_assign else "", rty, LT if base_assign else lty, wh, ", ".join(lst) if not base_assign else op)
+    desc = "impl %s%s<%s> for %s%s  derive_ex(%s)" % (op, "Assign" if base_assign else "", hdr_rty, LT if base_assign else lty, wh, ", ".join(lst) if not base_assign else op)
     return Prog(name, text, harnesses, {"describe": desc})
 
 
